@@ -182,3 +182,28 @@ def random_dataset(rng, n_snap, natom, amp=0.03):
     d = rng.normal(size=(n_snap, natom, 3)) * amp
     f = rng.normal(size=(n_snap, natom, 3))
     return d, f
+
+
+def reordered(sc):
+    """the same supercell with two atom labels exchanged such that the translation table changes (a 'twin': same numbers of
+    atoms and lattice points, same geometry); swaps that keep the list of orbit minima (independent atoms) are preferred,
+    so that the twin also agrees with its sibling in that respect"""
+    import itertools as _it
+    import numpy as _np
+    from symfc.spg_reps import SpgRepsO2
+    tp0 = _np.asarray(SpgRepsO2(atoms_of(sc)).translation_permutations)
+    N0 = len(sc["numbers"])
+    fallback = None
+    for a_, b_ in _it.combinations(range(N0), 2):
+        perm = _np.arange(N0)
+        perm[[a_, b_]] = perm[[b_, a_]]
+        sc2 = dict(sc)
+        sc2["positions"] = _np.asarray(sc["positions"])[perm]
+        sc2["numbers"] = _np.asarray(sc["numbers"])[perm]
+        sc2["name"] = sc["name"] + f"-swap{a_}{b_}"
+        tp2 = _np.asarray(SpgRepsO2(atoms_of(sc2)).translation_permutations)
+        if sorted(map(tuple, tp2.tolist())) != sorted(map(tuple, tp0.tolist())):
+            if sorted(set(tp2.min(axis=0).tolist())) == sorted(set(tp0.min(axis=0).tolist())):
+                return sc2
+            fallback = fallback or sc2
+    return fallback or sc
